@@ -19,7 +19,7 @@ def parseFut (s : String) : Option Fut :=
 def stripOpen (t : String) : Option String :=
   if t.endsWith "[" then some (t.dropEnd 1).toString else none
 
-/-! builder programs: `s<hex>` `a<fut>[ … ]` `f<hex>` `o<fut>[ … ]` `O<fut>` `n<fut>:<hex>[ … ]` `i` `b[ … ]`
+/-! builder programs: `s<hex>` `a<fut>[ … ]` `f<hex>` `o<fut>[ … ]` `O<fut>` `n<fut>:<hex>[ … ]` `i` `F` `b[ … ]`
     `?<fut>[ … ][ … ]` -/
 def parseOps : Nat → List String → Option (List Op × List String)
   | 0, _ => none
@@ -39,6 +39,7 @@ def parseOps : Nat → List String → Option (List Op × List String)
     if k == 's' then (strOfHex arg).bind fun s => cont (Op.sync s) ts
     else if k == 'f' then (strOfHex arg).bind fun s => cont (Op.fallback s) ts
     else if t == "i" then cont Op.nextId ts
+    else if t == "F" then cont Op.finish ts
     else if t == "b[" then (body ts).bind fun (os, r) => cont (Op.sub os) r
     else if k == 'a' then
       (stripOpen arg).bind fun f => (parseFut f).bind fun fut =>
@@ -150,6 +151,7 @@ def hasNoneOoo : Op → Bool
   | .nextId => false
   | .sub b => hasNoneOooL b
   | .ite _ t e => hasNoneOooL t || hasNoneOooL e
+  | .finish => false
 def hasNoneOooL : List Op → Bool
   | [] => false
   | o :: os => hasNoneOoo o || hasNoneOooL os
@@ -161,7 +163,9 @@ structure St where
   ref : Str := []
   cls : String := "unclassified"
   pendingSend : List FId := []
-  allSent : Bool := true
+  /-- free interleaving (`viewf`): polls print `-`; the final document is computed from a fresh run -/
+  free : Option (Bool × List FId × List Op) := none
+  sent : List FId := []
 
 def showPoll : Poll → String
   | .pending => "pending"
@@ -196,15 +200,27 @@ def step (st : St) (line : String) : St × String :=
         ({ run := some (startStream ooo done0 (compile ooo .top v)), ooo := ooo, ref := viewDoc v, cls := cls }, "ok")
       else (st, "bad-op")
     | _, _ => (st, "bad-op")
+  | "viewf" :: mode :: d0 :: toks =>
+    match parseNats ',' d0, parseViews (toks.length + 2) toks with
+    | some done0, some (vs, []) =>
+      if mode == "io" || mode == "ooo" then
+        let ooo := mode == "ooo"
+        let v := View.seq vs
+        let prog := compile ooo .top v
+        ({ run := some (startStream ooo done0 prog), ooo := ooo, ref := viewDoc v, free := some (ooo, done0, prog) }, "ok")
+      else (st, "bad-op")
+    | _, _ => (st, "bad-op")
+  | ["drain"] => (st, "ok")
   | ["send", ks] =>
     match parseNats ',' ks with
-    | some ks => ({ st with pendingSend := st.pendingSend ++ ks }, "ok")
+    | some ks => ({ st with pendingSend := st.pendingSend ++ ks, sent := st.sent ++ ks }, "ok")
     | none => (st, "bad-op")
   | ["run", is] =>
     match parseNats ',' is with
     | some _ => (st, "ok")
     | none => (st, "bad-op")
   | ["poll"] =>
+    if st.free.isSome then (st, "-") else
     match st.run with
     | none => (st, "bad-op")
     | some r =>
@@ -216,7 +232,10 @@ def step (st : St) (line : String) : St × String :=
   | ["end", chk] =>
     match st.run with
     | none => (st, "bad-op")
-    | some r =>
+    | some r0 =>
+      let r := match st.free with
+        | some (ooo, done0, prog) => ((startStream ooo done0 prog).polls [st.sent]).drain 10000
+        | none => r0
       let raw := itemsOf r.out
       let doc := if st.ooo then applyScripts raw else raw
       let finished := r.out.getLast? == some Poll.done
